@@ -719,7 +719,7 @@ def corpus():
     return [[c1], [c2], [c3]]
 
 
-def eval_cases(ctx, label, triples, shard=60, workers=4):
+def eval_cases(ctx, label, triples, shard=50, workers=6):
     """triples: (variant term, file syntax, observation).  Returns indices whose check_case is not true, or None
     when a shard did not compile.  Own sharding (instead of core.coq_eval_cases) so that every shard carries only
     its own interned strings."""
@@ -755,7 +755,7 @@ def run(ctx):
     pr = Printer(ctx.rng)
     files = corpus()
     n_corpus = len(files)
-    for _ in range(ctx.scaled(400, 3000)):
+    for _ in range(ctx.scaled(300, 3000)):
         files.append(g.file())
     cases = [{"text": pr.file(f)} for f in files]
     results = core.run_child(ctx, "c04", cases, timeout=3000)
